@@ -6,9 +6,12 @@ sys.path.insert(0, os.path.join(ROOT, "checklib"))
 import props as P
 
 all_ids = [json.loads(l)["id"] for l in open(os.path.join(ROOT, "properties.jsonl"))]
+# Only properties the lead has integrated (checklib/ready.txt, one id per line) are claimed; slices that are still
+# being built are listed under not_applicable with that reason until their check is green and reviewed.
+ready = set(l.strip() for l in open(os.path.join(ROOT, "checklib", "ready.txt")) if l.strip() and not l.startswith("#"))
 checks = []
 for pid in all_ids:
-    if pid not in P.PROPS:
+    if pid not in P.PROPS or pid not in ready:
         continue
     s = P.PROPS[pid]
     checks.append({
@@ -47,8 +50,9 @@ m = {
          "kind_free_text": "Go correspondence harness driving the real code in-process; differential against the Lean driver (T-diff tie) + implementation-level oracles (search for a failing input)"}],
     "checks": checks,
     "notes": "Machine-checked proof in Lean 4 about executable models; models tied to /repo by regenerated facts and by differential correspondence. See DESIGN.md.",
-    "not_applicable": [{"property_id": pid, "reason": P.NOT_YET.get(pid, "no check built yet in this round (see DESIGN.md §4 for the planned model and theorems)")}
-                       for pid in all_ids if pid not in P.PROPS],
+    "not_applicable": [{"property_id": pid, "reason": ("slice built but not yet integrated and reviewed by the lead (see DESIGN.md Part I §4)" if pid in P.PROPS else
+                                                       "no check built yet (see DESIGN.md Part II §4 for the planned model and theorems)")}
+                       for pid in all_ids if pid not in P.PROPS or pid not in ready],
 }
 json.dump(m, open(os.path.join(ROOT, "MANIFEST.json"), "w"), indent=1)
 print("MANIFEST.json: %d checks, %d not_applicable" % (len(checks), len(m["not_applicable"])))
